@@ -276,8 +276,7 @@ class AppCfgMgr:
                     self._terminate(appname)
                 else:
                     _LOGGER.info('Ignoring %s as it is running', appname)
-
-                cached.pop(appname, None)
+                    cached.pop(appname, None)
 
             elif os.path.exists(os.path.join(self.tm_env.cleanup_dir,
                                              appname)):
